@@ -18,7 +18,7 @@ def run(fw):
     fw.assumptions += ['three user units with 4 unit children in total; the reference graph is one shape per solver query (4 acyclic, 3 cyclic shapes); exponents and multipliers symbolic over 3 values each',
                        'recursion is unwound 8 deep with unwinding assertions: for the acyclic shapes this proves termination within that depth',
                        'the cyclic shapes are a listed finding (unbounded recursion, replayed as a stack overflow of the real library under a 64 MiB stack); they are excluded from the proof while it is listed',
-                       'h_imported (imported units with a dangling reference) is NOT decided by the solver in the quick tier: its 4 input combinations are executed on the model and on the real library', 'outside: everything else of C01 - libxml2 parsing, printer, validator, analyser, generator runs on arbitrary byte strings; uncaught exceptions from numeric text are the C16 check']
+                       'h_imported (imported units with a dangling reference) is NOT decided by the solver: its 4 input combinations are executed on the model and on the real library', 'outside: everything else of C01 - libxml2 parsing, printer, validator, analyser, generator runs on arbitrary byte strings; uncaught exceptions from numeric text are the C16 check']
     fw.known_finding_lines()
     listed = fw.kf_listed('C01-cyclic-units')
     jobs = []
@@ -32,8 +32,8 @@ def run(fw):
             jobs.append((r, nm, sh, False, heavy))
     jobs.append(('h_unowned', 'units not owned by a model', (4, 3, 3, 3), False, False))
     # imported units (no model / model with / model without the referenced units): the solver has no verdict in 900 s (measured);
-    # quick tier = all 4 combinations of its two symbolic bits executed on model and real library (not a solver verdict, stated in
-    # the evidence), thorough tier = the solver query as best effort
+    # both tiers = all 4 combinations of its two symbolic bits executed on model and real library (not a solver verdict, stated in
+    # the evidence); the solver query (686 s, then an unwinding bound of a set<char> initialiser too small) is not registered
     jobs.append(('h_imported', 'imported units, dangling import reference', (4, 3, 3, 3), False, True))
     if not listed:
         for nm, sh in CYCLIC.items():
@@ -50,9 +50,8 @@ def run(fw):
         lab = '%s[%s]' % (root, nm)
         if root == 'h_imported':
             fw.differential(m, root, H, seeds=4, defines=defs, vectors=[[a, b] for a in (0, 1) for b in (0, 1)])
-            if fw.tier == 'quick':
-                shutil.rmtree(m.dir, ignore_errors=True)
-                return
+            shutil.rmtree(m.dir, ignore_errors=True)
+            return
         r = fw.cbmc(m, root, unwind=8, unwindset=us, timeout=1500, label=lab, symbolic='exponents and multipliers of the 4 unit children')
         if r['status'] != 'SUCCESS':
             fw.log(lab, r['status'], r['wall'], [(f['msg'], f['inputs']) for f in r['failed']][:3])
